@@ -2,8 +2,9 @@
 """Prompt for a sub-agent that writes BEHAVIOUR-PRESERVING changes (to test that the checks raise no false alarm)."""
 import json, sys
 pid, wt = sys.argv[1], sys.argv[2]
+extra = sys.argv[3] if len(sys.argv) > 3 else ""
 p = [json.loads(l) for l in open('/verif/properties.jsonl') if json.loads(l)['id'] == pid][0]
-print(f"""You are helping to test a verification setup for the Go library iotaledger/hive.go for FALSE ALARMS. You have your own scratch git worktree of the repository at {wt} (Go 1.23; 19 separate Go modules, one per top-level directory). Work ONLY inside {wt}; do not read, list or write anything under /verif or /repo; do not run git commit. Shell env for every command: export GOFLAGS=-mod=mod GOPROXY=off GOSUMDB=off GOTOOLCHAIN=local (no network).
+print(f"""You are helping to test a verification setup for the Go library iotaledger/hive.go for FALSE ALARMS. You have your own scratch git worktree of the repository at {wt} (Go 1.23; 19 separate Go modules, one per top-level directory). Work ONLY inside {wt}; do not read, list or write anything under /verif or /repo; do not run git commit and never use `git stash` (the stash is shared between all worktrees). Shell env for every command: export GOFLAGS=-mod=mod GOPROXY=off GOSUMDB=off GOTOOLCHAIN=local (no network).
 
 The property that must KEEP holding:
 
@@ -11,7 +12,7 @@ The property that must KEEP holding:
   Statement: {p['statement']}
   Code anchors: {', '.join(p['anchors']['files'])}
 
-Your task: write TWO different behaviour-preserving changes to the library source in the anchored files (not to tests), of the kind a maintainer does all the time, after which the property above still holds for every input and every schedule: e.g. rename unexported functions/methods/fields/types (including the goroutine entry functions and internal helpers), extract or inline helper functions, move code between files of the same package, restructure control flow (early returns, loop forms), replace an internal data structure by an equivalent one, change internal lock granularity in a way that is still correct, change the wording of error messages / panic messages (keeping the sentinel errors that are part of the API and keeping which calls panic), add or remove internal logging-free fast paths that are provably equivalent, reorder independent statements, change buffer pre-sizing where it is bounded by the input. Make them non-trivial (each touching several functions) but be careful to preserve behaviour exactly as far as the statement is concerned: same results, same errors (errors.Is-compatible), same blocking/termination behaviour, same thread-safety, no new unbounded allocation. Keep every exported identifier and every call `verifYield("...")` (a no-op hook) exactly where it is relative to the surrounding statements.
+Your task: write TWO different behaviour-preserving changes to the library source in the anchored files (not to tests), of the kind a maintainer does all the time, after which the property above still holds for every input and every schedule: e.g. rename unexported functions/methods/fields/types (including the goroutine entry functions and internal helpers), extract or inline helper functions, move code between files of the same package, restructure control flow (early returns, loop forms), replace an internal data structure by an equivalent one, change internal lock granularity in a way that is still correct, change the wording of error messages / panic messages (keeping the sentinel errors that are part of the API and keeping which calls panic), add or remove internal logging-free fast paths that are provably equivalent, reorder independent statements, change buffer pre-sizing where it is bounded by the input. {extra} Make them non-trivial (each touching several functions) but be careful to preserve behaviour exactly as far as the statement is concerned: same results, same errors (errors.Is-compatible), same blocking/termination behaviour, same thread-safety, no new unbounded allocation. Keep every exported identifier and every call `verifYield("...")` (a no-op hook) exactly where it is relative to the surrounding statements.
 
 Deliver each change in its own directory {wt}/out1 and {wt}/out2:
   patch.diff - `git diff` of the change (must apply with `git apply` on a clean checkout of HEAD)
